@@ -358,7 +358,9 @@ MANIFEST_TEXT["C16"] = dict(
          "target an already dropped, possibly closed span), every stack of capture layers with any filters and any global level filter, "
          "no callback panics — so no storage lock is poisoned — (C16_no_panic, by a reference-accounting invariant of the registry), and "
          "every layer's storage equals the storage it produces as the only capture layer (C16_independent, simulation with frame lemmas "
-         "for the other layers). Tied to the code by stacks of 1-3 real capture layers with independent filters, pass-through layers in "
+         "for the other layers). Both are also proved for the raw subscriber API: exits without a matching enter and events whose explicit "
+         "parent is the id of a dropped, possibly closed span (C16_no_panic_raw_api, C16_independent_raw_api; the class contains the former "
+         "one: wfStepL_of_wfStepS). Tied to the code by stacks of 1-3 real capture layers with independent filters, pass-through layers in "
          "every position and stale follows-from targets; each real storage is also compared with the single-layer run of the real code.",
     note=_CAP_NOTE + "Pass-through layers do not exist in the model (they cannot influence it); the harness runs them for real.",
     technique="Lean 4 proof (registry accounting invariant; per-layer simulation) + differential correspondence + single-layer vs stack oracle")
@@ -533,3 +535,4 @@ PROPS["C02"]["extra_modules"] = ["TT.Props.C02Quiescence", "TT.Props.C02GuestLev
 PROPS["C01"]["extra_modules"] = ["TT.Props.C01General"]
 PROPS["C19"]["extra_modules"] = ["TT.Props.C19NoLostUpdate"]
 PROPS["C08"]["extra_modules"] = ["TT.Props.C08Stale"]
+PROPS["C16"]["extra_modules"] = ["TT.Props.C16Loose"]
